@@ -1,4 +1,5 @@
 import LolHtml.Model.SM
+import LolHtml.Lemmas.ArmResolve
 import LolHtml.Spec.Attrs
 /-!
 The tag / attribute states of the tokenizer table, as a decidable side-condition on the table, and
@@ -7,17 +8,20 @@ one symbolic-evaluation lemma per (state, byte class) for the LEXER machine: wha
 
 `TagStatesOk tbl` says that the ten states a start tag passes through (tag open, tag name,
 self-closing start tag, before/in/after attribute name, before attribute value, the three attribute
-value states) have exactly the arms the proofs below were made for, at the state indices the arms
-refer to; it is evaluated on `Gen.Syntax.table` (regenerated from the Rust on every run) by
+value states) BEHAVE like the arm lists the proofs below were made for, at the state indices the arms
+refer to: exactly the same enter actions, memchr needle and sequence arms, and for each of the 514
+input classes (every byte, as closing quote or not; end of input on a last / non-last slice) the
+first matching arm has the same kind (`eoc` / `eof` / other) and the same body — `Lemmas/ArmResolve.lean`.
+The ORDER of arms with disjoint patterns, or spelling a class out byte by byte, does not matter:
+`dispatch` reads the arm list through that resolution only (`dispatch_of_armsAgree`).
+It is evaluated on `Gen.Syntax.table` (regenerated from the Rust on every run) by
 `decide +kernel` in `Thm/C16_Attrs.lean`. `tagStatesWitness` lists what differs.
 -/
 namespace LolHtml.Model.TagStates
 open LolHtml LolHtml.Model
 
 /-- enter actions, memchr needle and arms of a state (its name does not matter) -/
-abbrev Key := List Call × Option UInt8 × List Arm
-
-def keyOf (sd : StateDef) : Key := (sd.enter, sd.memchr, sd.arms)
+abbrev Key := StateKey
 
 def eofArm : Arm := ⟨.eof, .seq ⟨[⟨.emitRawWithoutTokenAndEof, true⟩], none⟩⟩
 
@@ -100,55 +104,69 @@ def exp2 : Key := ([], some 60, [
 
 /-- the transition after the `>` arm of before_attribute_value_state -/
 def trans36 (t : Table) : Trans :=
-  match (t.state? 36).map keyOf with
-  | some k => if k == exp36 .gotoDyn then .gotoDyn else .goto t.dataState
-  | none => .goto t.dataState
+  if stateMatches t (36, exp36 .gotoDyn) then .gotoDyn else .goto t.dataState
 
 /-- expected keys by state index -/
 def expected (t : Table) : List (Nat × Key) :=
   [(2, exp2), (28, exp28), (31, exp31), (32, exp32), (33, exp33), (34, exp34), (35, exp35), (36, exp36 (trans36 t)),
    (37, expQuoted 39), (38, expQuoted 34), (39, exp39)]
 
-/-- the side-condition: the tag states are the expected ones; the character classes are the ASCII
-letters and the five HTML whitespace bytes; the data state is where `tag_open_state` comes from -/
-def TagStatesOk (t : Table) : Bool :=
-  (expected t).all (fun e => (t.state? e.1).map keyOf == some e.2) &&
-  t.whitespace == [32, 10, 13, 9, 12] && t.alpha == [(97, 122), (65, 90)] && t.dataState == 2
+def allBytes : List UInt8 := (List.range 256).map UInt8.ofNat
 
-/-- diagnostics: (state name or index, index of the first differing arm, or 1000 for enter/memchr,
-or 2000 for a missing state / class mismatch) -/
+theorem mem_allBytes (x : UInt8) : x ∈ allBytes := by
+  unfold allBytes
+  rw [List.mem_map]
+  exact ⟨x.toNat, List.mem_range.mpr x.toNat_lt, by simp⟩
+
+/-- the `whitespace` class contains exactly SP LF CR TAB FF (whatever the order or multiplicity it is written in) -/
+def wsClassOk (t : Table) : Bool :=
+  allBytes.all fun x => t.whitespace.contains x == ([32, 10, 13, 9, 12] : List UInt8).contains x
+
+/-- the `alpha` class is exactly a–z, A–Z (whatever the ranges it is written as) -/
+def alphaClassOk (t : Table) : Bool :=
+  allBytes.all fun x => t.alpha.any (fun r => r.1 ≤ x && x ≤ r.2) ==
+    ([(97, 122), (65, 90)] : List (UInt8 × UInt8)).any (fun r => r.1 ≤ x && x ≤ r.2)
+
+/-- the side-condition: the tag states resolve like the expected ones (`stateMatches`); the character classes are
+the ASCII letters and the five HTML whitespace bytes; the data state is where `tag_open_state` comes from -/
+def TagStatesOk (t : Table) : Bool :=
+  (expected t).all (stateMatches t) && wsClassOk t && alphaClassOk t && t.dataState == 2
+
+/-- diagnostics: (state name or index, code): 2000 = missing state / class mismatch, 1000 = enter actions or memchr
+needle differ, 3000 = sequence arms differ, otherwise the first input class that resolves to a different arm:
+`2·byte` (`2·byte + 1` with that byte as the closing quote), 512 = end of input on the last slice, 513 = on a
+non-last slice -/
 def tagStatesWitness (t : Table) : List (String × Nat) :=
-  ((expected t).filterMap fun e =>
-    match t.state? e.1 with
-    | none => some (s!"state {e.1} missing", 2000)
-    | some sd =>
-      if keyOf sd == e.2 then none
-      else if sd.enter != e.2.1 || sd.memchr != e.2.2.1 then some (sd.name, 1000)
-      else some (sd.name, ((sd.arms.zip e.2.2.2).takeWhile fun p => p.1 == p.2).length)) ++
-  (if t.whitespace == [32, 10, 13, 9, 12] then [] else [("whitespace class", 2000)]) ++
-  (if t.alpha == [(97, 122), (65, 90)] then [] else [("alpha class", 2000)]) ++
+  ((expected t).filterMap (stateWitness t)) ++
+  (if wsClassOk t then [] else [("whitespace class", 2000)]) ++
+  (if alphaClassOk t then [] else [("alpha class", 2000)]) ++
   (if t.dataState == 2 then [] else [("data state index", 2000)])
 
 /-! ## Facts extracted from the side-condition -/
 
 variable {κ : Type}
 
+/-- the state exists, with the expected enter actions and needle, and `dispatch` over its arms IS `dispatch` over the
+expected arms (`ha`, used as a rewrite rule by the step lemmas) -/
 theorem state_of_ok {t : Table} (h : TagStatesOk t = true) {s : Nat} {k : Key} (hm : (s, k) ∈ expected t) :
-    ∃ sd, t.state? s = some sd ∧ sd.enter = k.1 ∧ sd.memchr = k.2.1 ∧ sd.arms = k.2.2 := by
+    ∃ sd, t.state? s = some sd ∧ sd.enter = k.1 ∧ sd.memchr = k.2.1 ∧
+      (∀ {κ : Type} (env : Env κ), env.tbl = t → ∀ (inp : Bytes) (ch : Option UInt8) (m : M κ),
+        dispatch env inp ch sd.arms m = dispatch env inp ch k.2.2 m) := by
   unfold TagStatesOk at h
   simp only [Bool.and_eq_true, List.all_eq_true] at h
-  have := h.1.1.1 _ hm
-  simp only [beq_iff_eq] at this
-  cases hs : t.state? s with
-  | none => simp [hs] at this
-  | some sd =>
-    simp only [hs, Option.map_some, Option.some.injEq] at this
-    refine ⟨sd, rfl, ?_, ?_, ?_⟩ <;> simp [← this, keyOf]
+  exact state_of_matches (h.1.1.1 _ hm)
 
-theorem ws_of_ok {t : Table} (h : TagStatesOk t = true) : t.whitespace = [32, 10, 13, 9, 12] := by
-  unfold TagStatesOk at h; simp only [Bool.and_eq_true, beq_iff_eq] at h; exact h.1.1.2
-theorem alpha_of_ok {t : Table} (h : TagStatesOk t = true) : t.alpha = [(97, 122), (65, 90)] := by
-  unfold TagStatesOk at h; simp only [Bool.and_eq_true, beq_iff_eq] at h; exact h.1.2
+theorem ws_of_ok {t : Table} (h : TagStatesOk t = true) (x : UInt8) :
+    x ∈ t.whitespace ↔ x ∈ ([32, 10, 13, 9, 12] : List UInt8) := by
+  unfold TagStatesOk wsClassOk at h
+  simp only [Bool.and_eq_true, List.all_eq_true, beq_iff_eq] at h
+  have := h.1.1.2 x (mem_allBytes x)
+  rw [← List.contains_iff_mem, ← List.contains_iff_mem, this]
+theorem alpha_of_ok {t : Table} (h : TagStatesOk t = true) (x : UInt8) :
+    t.alpha.any (fun r => r.1 ≤ x && x ≤ r.2) = ([(97, 122), (65, 90)] : List (UInt8 × UInt8)).any (fun r => r.1 ≤ x && x ≤ r.2) := by
+  unfold TagStatesOk alphaClassOk at h
+  simp only [Bool.and_eq_true, List.all_eq_true, beq_iff_eq] at h
+  exact h.1.2 x (mem_allBytes x)
 theorem data_of_ok {t : Table} (h : TagStatesOk t = true) : t.dataState = 2 := by
   unfold TagStatesOk at h; simp only [Bool.and_eq_true, beq_iff_eq] at h; exact h.2
 
